@@ -24,10 +24,10 @@ deriving Repr, Inhabited
 namespace Sig
 def args (s : Sig) : List String := s.pos.map (·.1)
 def kwonlyNames (s : Sig) : List String := s.kwonly.map (·.1)
-/-- `_get_kwarg_defaults`: positional defaults, then keyword-only defaults. -/
+/-- `_get_kwarg_defaults`: positional defaults, then keyword-only defaults (a dict). -/
 def kwargDefaults (s : Sig) : AList String Val :=
-  AList.update (s.pos.filterMap (fun p => p.2.map (fun d => (p.1, d))))
-               (s.kwonly.filterMap (fun p => p.2.map (fun d => (p.1, d))))
+  AList.update [] (s.pos.filterMap (fun p => p.2.map (fun d => (p.1, d)))
+                   ++ s.kwonly.filterMap (fun p => p.2.map (fun d => (p.1, d))))
 /-- `_might_have_parameter` -/
 def mightHave (s : Sig) (name : String) : Bool :=
   s.varkw || s.args.contains name || s.kwonlyNames.contains name
